@@ -272,15 +272,23 @@ def sumCapsL : Nat → List Nat → Option Nat
     | none => none
     | some s => sumCapsL s rest
 
+/-- `output.is_lack_of_capacity(Capacity::bytes(data.len())?)?`: `none` = a checked operation
+overflowed (`CapacityError::Overflow`) -/
+def lackOfCapacity (o : Output) : Option Bool :=
+  match capBytes o.dataLen with
+  | none => none
+  | some dc =>
+    match occupied o dc with
+    | none => none
+    | some occ => some (decide (occ > o.capacity))
+
 def checkOutputs : Nat → List Output → CapV
   | _, [] => .ok
   | i, o :: rest =>
-    match capBytes o.dataLen with
+    match lackOfCapacity o with
     | none => .overflow
-    | some dc =>
-      match occupied o dc with
-      | none => .overflow
-      | some occ => if occ > o.capacity then .insufficient i else checkOutputs (i + 1) rest
+    | some true => .insufficient i
+    | some false => checkOutputs (i + 1) rest
 
 /-- `CapacityVerifier::verify`; `exempt` = `resolved_inputs.is_empty()` (cellbase) or some input uses the DAO type script -/
 def capacityVerify (exempt : Bool) (inputCaps : List Nat) (outputs : List Output) : CapV :=
